@@ -504,6 +504,13 @@ pub fn run_check(all: &[Box<dyn Scenario>], info: &PropInfo, tier: Tier, seed: u
             counters.insert(k.to_string(), *v);
         }
     }
+    for sc in all.iter() {
+        if sc.budget(target, tier) > 0 {
+            for pr in sc.expected_probes(target) {
+                probes.entry(pr.to_string()).or_insert(0);
+            }
+        }
+    }
     let zero: Vec<J> = probes.iter().filter(|(_, v)| **v == 0).map(|(k, _)| J::s(k.clone())).collect();
     cov.put("faults_fired", J::from_counts(&faults));
     cov.put("faults_configured_not_fired", J::from_counts(&nf));
